@@ -20,6 +20,7 @@ import (
 // a partition, every record of that batch is already stored in an S3 segment
 // (with its index)".
 func (w *w1) onProduceAck(rec *produceRec) {
+	w.sim.Note("produce-reply %s/%d c%d.%d code=%d base=%d n=%d acks=%d %s", rec.topic, rec.part, rec.client, rec.seq, rec.code, rec.base, rec.nrec, rec.acks, mal(rec))
 	if rec.code != 0 || rec.acks == 0 || w.cfg("flush_on_ack", 1) != 1 {
 		return
 	}
@@ -172,6 +173,7 @@ func (w *w1) opFetch(client, seq int, op simrt.Op) {
 
 // onFetchReply judges one fetch response (C03, C04, C05's HW clause).
 func (w *w1) onFetchReply(fr *fetchRec) {
+	w.sim.Note("fetch-reply %s/%d@%d max=%d code=%d hw=%d bytes=%d", fr.topic, fr.part, fr.offset, fr.maxBytes, fr.code, fr.hw, len(fr.data))
 	if fr.code != 0 {
 		return
 	}
@@ -306,9 +308,16 @@ func (w *w1) judgeProgress(fr *fetchRec, known []logBatch, batches []*kbatch.Bat
 			return // skipping is C03's clause
 		}
 	}
-	// the start of the target may be in the trailing partial batch
-	if len(rest) >= 8 {
-		if int64(beU64(rest[:8])) == target.base {
+	// the start of the target may be in the trailing partial batch: any
+	// non-empty prefix of the target batch (as stored, i.e. with its assigned
+	// base offset) counts as "includes the start of the batch"
+	if len(rest) > 0 && len(rest) <= len(target.raw) {
+		stored := append([]byte(nil), target.raw...)
+		for i := 0; i < 8; i++ {
+			stored[i] = byte(uint64(target.base) >> (56 - 8*uint(i)))
+		}
+		if string(stored[:len(rest)]) == string(rest) {
+			w.sim.Probe("c04.partial-start-only")
 			return
 		}
 	}
